@@ -46,6 +46,27 @@ func (l *Leaf) Cert() *x509.Certificate {
 	return c
 }
 
+// Fresh returns a copy of l whose certificates (leaf and issuer) are content-fresh:
+// the last bytes of each certificate's signatureValue are replaced by salt. Nothing
+// in the repository validates a certificate's own signature, and
+// x509.ParseCertificate does not look inside signatureValue, so the copy is as
+// usable as the original - but no content-keyed cache can have met it before.
+func Fresh(l *Leaf, salt []byte) *Leaf {
+	f := *l
+	fresh := func(der []byte) []byte {
+		d := append([]byte(nil), der...)
+		copy(d[len(d)-len(salt):], salt)
+		if _, err := x509.ParseCertificate(d); err != nil {
+			return append([]byte(nil), der...) // (cannot happen for the fixtures; stay usable)
+		}
+		return d
+	}
+	f.DER = fresh(l.DER)
+	f.CADER = fresh(l.CADER)
+	f.PEM = pem.EncodeToMemory(&pem.Block{Type: "CERTIFICATE", Bytes: f.DER})
+	return &f
+}
+
 // Sha256 of the DER.
 func (l *Leaf) Sha256() []byte { s := sha256.Sum256(l.DER); return s[:] }
 
